@@ -93,7 +93,7 @@ pub enum HOp {
     AddFile(String, Option<Vec<u8>>),
 }
 
-fn path_results(m: &HashMap<PathBuf, ParseFileResult<PathBuf>>) -> Json {
+pub fn path_results(m: &HashMap<PathBuf, ParseFileResult<PathBuf>>) -> Json {
     let mut v: Vec<(&PathBuf, &ParseFileResult<PathBuf>)> = m.iter().collect();
     v.sort_by(|a, b| a.0.cmp(b.0));
     Json::Arr(
